@@ -105,7 +105,9 @@ def summarize(op, r):
                 'qrc': qrc is not None, 'objs': canon_obj([_obj_json(x) for x in items]),
                 'qrcObj': None if qrc is None else canon_obj(_obj_json(qrc))}
     if post == 'invoke':
-        return {'k': 'invoke', 'rvNone': r[0] is None, 'outs': sorted(set(k.lower() for k in r[1].keys()))}
+        T = cimproto.Tables()
+        return {'k': 'invoke', 'rv': canon_obj(cimproto.val_to_json(r[0], T)),
+                'outs': {k.lower(): canon_obj(cimproto.val_to_json(v, T)) for k, v in r[1].items()}}
     if post == 'objs' and not op.flags.get('instLevel'):
         return {'k': 'list', 'items': ['pair' if isinstance(x, tuple) else d(x) for x in r],
                 'objs': canon_obj([_obj_json(x) for x in r])}
@@ -122,7 +124,9 @@ def model_summary(op, out):
     if s.get('qrcObj') is not None:
         s['qrcObj'] = canon_obj(s['qrcObj'])
     if s.get('k') == 'invoke':
-        s['outs'] = sorted(set(common.from_cps(n).lower() for n in s['outs']))
+        # OutputParameters is a NocaseDict: a later parameter of the same (case-insensitive) name replaces the value
+        s['rv'] = canon_obj(s['rv'])
+        s['outs'] = {common.from_cps(n).lower(): canon_obj(v) for n, v in s['outs']}
     if op.flags.get('iter'):
         objs = s.get('objs', [])
         if op.name in ('IterEnumerateInstances:trad', 'IterEnumerateInstancePaths:trad'):
@@ -228,10 +232,9 @@ class Tables2(cimproto.Tables):
                     self.emb(txt)
                 if name == 'VALUE' and txt not in self.uris and len(self.uris) < 200:
                     try:
-                        pywbem.CIMInstanceName.from_wbem_uri(txt)
-                        self.uris[txt] = True
+                        self.uris[txt] = cimproto.path_to_json(pywbem.CIMInstanceName.from_wbem_uri(txt), self)
                     except ValueError:
-                        self.uris[txt] = False
+                        self.uris[txt] = None
             for k in kids:
                 if isinstance(k, tuple):
                     stack.append(k)
@@ -242,12 +245,29 @@ class Tables2(cimproto.Tables):
         return j
 
 
+def sort_attrs(j):
+    """tree JSON of the driver (attributes in document order) with the attributes sorted (the SAX dict has no order)"""
+    root = dict(j)
+    stack = [root]
+    while stack:
+        n = stack.pop()
+        if 'a' in n:
+            n['a'] = sorted(n['a'])
+            n['c'] = [dict(k) for k in n['c']]
+            stack.extend(n['c'])
+    return root
+
+
 def tt_json_iter(tt):
     return L.to_json(L.from_tt_iter(tt))
 
 
 def model_request(c):
     op = L.op_by_name(c['op'])
+    if c.get('transport_exc') is not None:
+        T = Tables2()
+        d = L.describe_transport_exc(L.transport_exceptions()[c['transport_exc']], T)
+        return {'op': 'transport', 'exc': d, 'codec': T.to_json()}
     http = {'status': c['status'], 'headers': [[cimproto.cps(k), cimproto.cps(v)] for k, v in c['headers'].items()]}
     tt = sax_tree(c['body'])
     if tt is not None and L.depth(L.from_tt_iter(tt)) > MAX_MODEL_DEPTH:
@@ -354,7 +374,7 @@ def gen_cases(run, scale):
     # directed: typed texts (format-hostile tokens, isdigit()-but-not-int() digits, INF/NaN, over-long literals,
     # malformed datetimes) at every typed text position: property value, array item, key value, qualifier value
     gi, ein = L.op_by_name('GetInstance'), L.op_by_name('EnumerateInstanceNames')
-    key_texts = L.HOSTILE + L.ISDIGIT_NOT_INT + ['INF', 'NaN', '1e400', '', 'x', '256', '0x' + 'f' * 3600, '9' * 4301,
+    key_texts = L.HOSTILE + L.ISDIGIT_NOT_INT + L.FLOAT_EDGE[:6] + L.FLOAT_EDGE[-6:] + ['INF', 'NaN', '1e400', '', 'x', '256', '0x' + 'f' * 3600, '9' * 4301,
                                                   '20240101000000.000000+000', '2024{0}01000000.000000+000',
                                                   '20241301000000.000000+000', '12345678{x}2345.123456:000']
     for ty in L.SCALAR_TYPES:
@@ -403,7 +423,7 @@ def gen_cases(run, scale):
                             kids.append(L.paramvalue('QueryResultClass', None, L.obj_tree(pywbem.CIMClass('C'))))
                         add(op, ['session:ctx:%s' % (ck[0] if ck else 'none')],
                             L.ser(L.build_response(op, kids)).encode('utf-8'))
-    # transport exceptions (oracle only: the exception mapping of _cim_http is not modelled)
+    # transport exceptions: synthetic requests / urllib3 exceptions (Model/Transport.lean: wbemRequest)
     for i in range(len(L.transport_exceptions())):
         add(r.choice(ops), ['transport'], b'', transport_exc=i)
     # deep nesting
@@ -433,6 +453,8 @@ HUGE_HEX = __import__('re').compile(rb'0[xX][0-9a-fA-F]{3500,}')
 def input_class(labels, body=b''):
     if any(l.startswith('deep:reference') or l.startswith('deep:') for l in labels):
         return 'deep_nesting'
+    if 'transport' in labels:
+        return 'transport'
     if HUGE_HEX.search(body):
         return 'huge_hex_literal'
     return 'other'
@@ -472,7 +494,7 @@ def run(run):
         'receives the tupletree the real xml_to_tupletree_sax produced, or "rejected"',
         'Codec hypothesis record (float()/int(float)/float(int), CIMDateTime(str), CIMInstanceName.from_wbem_uri(str) '
         'success, expat parse of embedded-object text) instantiated by tables computed with Python for the run inputs',
-        'requests/urllib3 exception hierarchy and pywbem_requests_exception mapping: oracle only (synthetic exceptions)',
+        'which exceptions requests/urllib3 raise and their args[0] is an input of the model (synthetic exceptions)',
         "Python's recursion limit is not modelled (model fuel: 40 embedded levels); the int-string digit limit (4300) is",
         'CIM status codes are compared as max(code, 0) (PyExc.cimError carries a Nat)']
     cases = gen_cases(run, scale)
@@ -482,7 +504,7 @@ def run(run):
             raise RuntimeError('harness crash on case %s: %s' % (c['labels'], rec['crash']))
     # model side (transport cases have no model counterpart)
     mcases = [(c, rec) for c, rec in zip(cases, reals)
-              if c.get('transport_exc') is None and not L.op_by_name(c['op']).flags.get('oracle_only')]
+              if not L.op_by_name(c['op']).flags.get('oracle_only') or c.get('transport_exc') is not None]
     reqs = common.pmap(_mreq, [c for c, _ in mcases], chunksize=16)
     known = common.load_known_all()
     keep = [i for i, q in enumerate(reqs) if q is not None]
@@ -496,7 +518,7 @@ def run(run):
             run.disagree(case_json(c), ans.get('convMismatch'), 0,
                          'truncF64 / floatOverflows (concrete int(float), float(int) overflow) vs CPython on the run tables')
         deep = input_class(c['labels']) == 'deep_nesting'
-        m = model_summary(op, ans.get('out', ans))
+        m = ans.get('out', ans) if c.get('transport_exc') is not None else model_summary(op, ans.get('out', ans))
         real = rec['out']
         if 'ok' in real and op.flags.get('iter') and real['ok'].get('k') == 'items':
             pass
@@ -519,6 +541,48 @@ def run(run):
             if 'req' in rec and (ans.get('req') != rec['req'] or ans.get('resp') != rec['resp']):
                 run.disagree(case_json(c), [ans.get('req'), ans.get('resp')], [rec['req'], rec['resp']],
                              'request_data / response_data flags of a parse error')
+    # the same responses from their TEXT: XmlParse.par as the SAX layer (Model/Wire.lean: operationText)
+    tcases = []
+    for (c, rec), q in zip(mcases, [reqs[i] for i in keep]):
+        if q.get('op') != 'rsp':
+            continue
+        try:
+            text = c['body'].decode('utf-8')
+        except UnicodeDecodeError:
+            run.count('text:not_utf8')
+            continue
+        if len(text) > 30000:
+            continue
+        tq = dict(q)
+        tq['op'] = 'rspText'
+        tq['text'] = cimproto.cps(text)
+        tcases.append((c, rec, q, tq))
+    if not run.thorough:
+        tcases = tcases[::2]
+    tans = common.run_driver(PROP, [t[3] for t in tcases]) if tcases else []
+    for (c, rec, q, tq), ans in zip(tcases, tans):
+        op = L.op_by_name(c['op'])
+        if not ans.get('parsed'):
+            run.count('text:par_rejects' + (':expat_accepts' if q['tree'] is not None else ':expat_rejects'))
+            if q['tree'] is None and c['status'] == 200:
+                pass
+            continue
+        run.count('text:par_accepts')
+        if q['tree'] is None:
+            run.disagree(case_json(c), 'par accepts', 'expat rejects', 'XmlParse.par must under-approximate expat')
+            continue
+        if sort_attrs(ans['tree']) != q['tree']:
+            run.disagree(case_json(c), 'tree of XmlParse.par', 'tupletree of xml_to_tupletree_sax',
+                         'XmlParse.par vs expat: different tree')
+            continue
+        m = model_summary(op, ans.get('out', ans))
+        vsig = None
+        if rec.get('viol') is not None:
+            vsig = dict(rec['viol'][0])
+            vsig['input_class'] = input_class(c['labels'], c['body'])
+        if m != rec['out'] and not (vsig is not None and any(common.matches(f, PROP, vsig) for f in known)) \
+                and rec.get('cls') != 'RecursionError':
+            run.disagree(case_json(c), m, rec['out'], 'outcome of Wire.operationText (from the text) vs the real operation')
     # statistics + oracle
     seen = set()
     for c, rec in zip(cases, reals):
